@@ -242,12 +242,20 @@ def run_check(args):
             hc = int((r.get("cfg") or {}).get("hash_class", 0))
             same = sorted(x["idx"] for x in results if int((x.get("cfg") or {}).get("hash_class", 0)) == hc and x["idx"] < r["idx"])
             mine = [i for i in same if (r["idx"] - i) % max(1, workers // max(1, len(classes))) == 0]
-            for k in (1, 3, 10, len(mine)):
-                if not mine:
+            # first the whole recorded session on its own (the minimiser ran in
+            # this interpreter, whose shared state the fresh one does not have),
+            # then with growing preludes
+            for k in (0, 1, 3, 10, len(mine)):
+                if k and not mine:
                     break
                 rep["ops"] = ops
-                rep["prelude"] = {"seed": args.seed, "tier": tier, "indices": mine[-k:]}
-                rep["note"] = "reproduces only after the listed earlier sessions ran in the same interpreter: some state is shared between System objects"
+                rep["step"] = v["step"]
+                rep["detail"] = v["detail"]
+                if k:
+                    rep["prelude"] = {"seed": args.seed, "tier": tier, "indices": mine[-k:]}
+                    rep["note"] = "reproduces only after the listed earlier sessions ran in the same interpreter: some state is shared between System objects"
+                else:
+                    rep["note"] = "not minimised: the shortened session reproduced only in the interpreter that had run the minimiser (state shared between System objects)"
                 with open(replay_path, "w") as f:
                     json.dump(rep, f, indent=1, default=str)
                 p = subprocess.run([sys.executable, os.path.join(VERIF, "simcheck.py"), "--property", prop, "--replay", replay_path], capture_output=True, text=True, timeout=900)
